@@ -260,6 +260,45 @@ func run(w *core.Worker, c Case) {
 	}
 }
 
+
+// FuzzTrie (thorough tier): coverage-guided fuzzing over key sets (the input is cut into keys at
+// every '|'), probed with the keys, their prefixes and one-byte extensions; same run oracle.
+func FuzzTrie(f *testing.F) {
+	f.Add(false, []byte("she|shells|sea|shore|she|s"))
+	f.Add(true, []byte("a\x00|a|ab|\xc3\xa9|\xc3|\xff\xfe"))
+	f.Fuzz(func(t *testing.T, undrained bool, data []byte) {
+		if len(data) > 160 {
+			data = data[:160]
+		}
+		c := Case{Undrained: undrained, Probes: []string{}}
+		pset := map[string]bool{"": true}
+		for _, k := range strings.Split(string(data), "|") {
+			if k == "" {
+				continue
+			}
+			c.Puts = append(c.Puts, hx(k))
+			for j := 1; j <= len(k); j++ {
+				pset[k[:j]] = true
+			}
+			pset[k+"a"] = true
+			pset[k+"\xff"] = true
+		}
+		if len(c.Puts) == 0 {
+			return
+		}
+		ps := make([]string, 0, len(pset))
+		for p := range pset {
+			ps = append(ps, p)
+		}
+		sort.Strings(ps)
+		for _, p := range ps {
+			c.Probes = append(c.Probes, hx(p))
+		}
+		w := core.Probe(func(sig, detail string) { t.Fatalf("VERIF-SIG %s\nVERIF-CASE %s\n%s", sig, core.JSON(c), detail) })
+		run(w, c)
+	})
+}
+
 func TestProp(t *testing.T) {
 	r := core.Start(t, "C09")
 	defer r.Finish()
